@@ -23,13 +23,22 @@
 #include "sc_common.h"
 #include <sched.h>
 
-#define MAXKEYS 8
+#define MAXSHARED 8
+#define OWNKEYS 2 /* keys every actor creates itself, concurrently with the others */
+#define MAXKEYS (MAXSHARED + MAX_ACTORS * OWNKEYS)
 #define MAXOPS 4096
 
 static int rounds = 4, nkeys = 3, tblsize = 1, getpct = 35;
 static ABT_key keys[MAXKEYS];
 static uint32_t keyid[MAXKEYS];
 static int keydt[MAXKEYS];
+static volatile int keyready[MAXKEYS];
+static int nshared;
+/* ---- key creation: ids must be pairwise distinct and outside the runtime's reserved range ---- */
+static __thread int in_keycreate;
+static int gkey_named;
+static uint32_t ids_seen[MAXKEYS + 8];
+static int nids;
 static ABT_thread owner;
 static ABTI_thread *p_owner;
 static volatile int go, others_done;
@@ -55,6 +64,25 @@ static void dt2(void *v)
         dcalls[ndcalls++].v = (unsigned long)(uintptr_t)v;
     }
 }
+static void create_key(int actor, int idx)
+{
+    keydt[idx] = sc_rnd(3);
+    vs_log("kc begin A%d", actor);
+    in_keycreate = 1;
+    int rc = ABT_key_create(keydt[idx] == 0 ? NULL : keydt[idx] == 1 ? dt1 : dt2, &keys[idx]);
+    in_keycreate = 0;
+    keyid[idx] = rc == ABT_SUCCESS ? ABTI_key_get_ptr(keys[idx])->id : 0;
+    vs_note("kc end A%d id=%u rc=%d", actor, keyid[idx], rc);
+    VSA_CHECK(rc == ABT_SUCCESS, "ABT_key_create by A%d returned %d", actor, rc);
+    VSA_CHECK(keyid[idx] >= ABTI_KEY_ID_END_, "ABT_key_create by A%d handed out the reserved key id %u", actor, keyid[idx]);
+    for (int i = 0; i < nids; i++)
+        VSA_CHECK(ids_seen[i] != keyid[idx], "ABT_key_create by A%d returned key id %u which another live key already has", actor,
+                  keyid[idx]);
+    ids_seen[nids++] = keyid[idx];
+    vs_note("kt key %d id=%u dtor=%d", idx, keyid[idx], keydt[idx]);
+    keyready[idx] = 1;
+}
+
 static void mig_cb(ABT_thread t, void *arg)
 {
     (void)t;
@@ -145,6 +173,15 @@ static void name_elem(ABTI_ktelem *e)
 static void on_atomic(int kind, int width, const volatile void *addr, uint64_t a, uint64_t b)
 {
     (void)b;
+    if (in_keycreate && !gkey_named && width == 4) {
+        /* the first 32-bit atomic access inside ABT_key_create is the id counter `g_key_id` (static in key.c) */
+        uint32_t cur = *(const volatile uint32_t *)addr;
+        if (cur >= ABTI_KEY_ID_END_ && cur < (1u << 20)) {
+            vs_name((const void *)addr, 4, "GKEYID");
+            vs_note("kc counter start=%u", cur);
+            gkey_named = 1;
+        }
+    }
     /* `ABTD_atomic_relaxed_store_ptr(&p_elem->p_next, NULL)` of ABTI_ktable_set_impl: the new element is complete but
      * not yet reachable.  Name it now so that every later access to its link is in the log. */
     if (kind != 2 || width != 8 || a != 0 || cur_set_key < 0)
@@ -222,8 +259,16 @@ static void body(actor *a)
 {
     while (!go)
         relax(a);
+    for (int j = 0; j < OWNKEYS; j++) {
+        create_key(a->id, MAXSHARED + a->id * OWNKEYS + j);
+        if (sc_rnd(2))
+            relax(a);
+    }
     for (int r = 0; r < rounds; r++) {
-        int k = sc_rnd(nkeys);
+        int k;
+        do { /* a shared key, or a key some actor has created by now */
+            k = sc_rnd(3) ? sc_rnd(nshared) : MAXSHARED + sc_rnd(sc_nactors * OWNKEYS);
+        } while (!keyready[k]);
         if (sc_rnd(100) < getpct)
             do_get(a, k);
         else
@@ -259,8 +304,9 @@ int main(int argc, char **argv)
         nact = MAX_ACTORS;
     if (nkeys < 1)
         nkeys = 1;
-    if (nkeys > MAXKEYS)
-        nkeys = MAXKEYS;
+    if (nkeys > MAXSHARED)
+        nkeys = MAXSHARED;
+    nshared = nkeys;
     char buf[32];
     snprintf(buf, sizeof buf, "%d", tblsize);
     setenv("ABT_KEY_TABLE_SIZE", buf, 1);
@@ -269,12 +315,9 @@ int main(int argc, char **argv)
     vs_set_atomic_fn(on_atomic);
     vs_note("scenario ktable nes=%d nact=%d rounds=%d nkeys=%d tablesize=%d", nes, nact, rounds, nkeys, tblsize);
     sc_streams(nes, ABT_SCHED_BASIC);
-    for (int i = 0; i < nkeys; i++) {
-        keydt[i] = sc_rnd(3);
-        ABT_OK(ABT_key_create(keydt[i] == 0 ? NULL : keydt[i] == 1 ? dt1 : dt2, &keys[i]));
-        keyid[i] = ABTI_key_get_ptr(keys[i])->id;
-        vs_note("kt key %d id=%u dtor=%d", i, keyid[i], keydt[i]);
-    }
+    vs_note("kc idend %d", (int)ABTI_KEY_ID_END_);
+    for (int i = 0; i < nshared; i++)
+        create_key(99, i);
     sc_nactors = nact;
     n_others = nact - 1;
     for (int i = 0; i < nact; i++) {
@@ -317,8 +360,10 @@ int main(int argc, char **argv)
         VSA_CHECK(sc_actors[i].started == 1 && sc_actors[i].finished == 1, "actor A%d started=%d finished=%d", i, sc_actors[i].started,
                   sc_actors[i].finished);
     }
-    unsigned long finalv[MAXKEYS];
-    for (int k = 0; k < nkeys; k++) {
+    unsigned long finalv[MAXKEYS] = { 0 };
+    for (int k = 0; k < MAXKEYS; k++) {
+        if (!keyready[k])
+            continue;
         void *v = NULL;
         ABT_OK(ABT_thread_get_specific(owner, keys[k], &v));
         finalv[k] = (unsigned long)(uintptr_t)v;
@@ -332,11 +377,13 @@ int main(int argc, char **argv)
             for (ABTI_ktelem *e = (ABTI_ktelem *)ABTD_atomic_relaxed_load_ptr(&p_kt->p_elems[b]); e;
                  e = (ABTI_ktelem *)ABTD_atomic_relaxed_load_ptr(&e->p_next)) {
                 VSA_CHECK((int)(e->key_id & (uint32_t)(p_kt->size - 1)) == b, "element of key %u sits in bucket %d", e->key_id, b);
-                for (int k = 0; k < nkeys; k++)
-                    if (keyid[k] == e->key_id)
+                for (int k = 0; k < MAXKEYS; k++)
+                    if (keyready[k] && keyid[k] == e->key_id)
                         seen[k]++;
             }
-        for (int k = 0; k < nkeys; k++) {
+        for (int k = 0; k < MAXKEYS; k++) {
+        if (!keyready[k])
+            continue;
             int was_set = 0;
             for (int i = 0; i < nops; i++)
                 was_set |= ops[i].isset && ops[i].key == k;
@@ -344,8 +391,9 @@ int main(int argc, char **argv)
         }
     }
     vs_note("kt final%s", "");
-    for (int k = 0; k < nkeys; k++)
-        vs_note("kt finalv key=%u v=%lu", keyid[k], finalv[k]);
+    for (int k = 0; k < MAXKEYS; k++)
+        if (keyready[k])
+            vs_note("kt finalv key=%u v=%lu", keyid[k], finalv[k]);
     ndcalls = 0;
     for (int i = 0; i < nelem && i < 512; i++)
         vs_unname(elems[i]);
@@ -353,7 +401,9 @@ int main(int argc, char **argv)
         vs_unname(p_kt);
     vs_unname(p_owner);
     ABT_OK(ABT_thread_free(&sc_actors[0].th));
-    for (int k = 0; k < nkeys; k++) {
+    for (int k = 0; k < MAXKEYS; k++) {
+        if (!keyready[k])
+            continue;
         int want = (keydt[k] != 0 && finalv[k] != 0), got = 0;
         for (int i = 0; i < ndcalls; i++)
             if (dcalls[i].fn == keydt[k] && dcalls[i].v == finalv[k])
@@ -364,8 +414,8 @@ int main(int argc, char **argv)
     }
     {
         int expected = 0;
-        for (int k = 0; k < nkeys; k++)
-            expected += (keydt[k] != 0 && finalv[k] != 0);
+        for (int k = 0; k < MAXKEYS; k++)
+            expected += (keyready[k] && keydt[k] != 0 && finalv[k] != 0);
         VSA_CHECK(ndcalls == expected, "%d destructor calls at free, expected %d", ndcalls, expected);
     }
     vs_note("kt freed dcalls=%d", ndcalls);
@@ -374,8 +424,9 @@ int main(int argc, char **argv)
             vs_unname(ABTI_thread_get_ptr(sc_actors[i].th));
             ABT_OK(ABT_thread_free(&sc_actors[i].th));
         }
-    for (int i = 0; i < nkeys; i++)
-        ABT_OK(ABT_key_free(&keys[i]));
+    for (int i = 0; i < MAXKEYS; i++)
+        if (keyready[i])
+            ABT_OK(ABT_key_free(&keys[i]));
     sc_stop_streams();
     ABT_finalize();
     int rc = vsa_end();
